@@ -217,9 +217,13 @@ pub fn well_formed(bm: &BMOC) -> bool {
 }
 
 pub fn ev_new(regs: &mut Regs, out: &mut Out, k: usize, dmax: u8, cs: &[C]) {
-  let bm = build(dmax, cs);
-  out.emit(json!({"ev": "new", "out": k, "dmax": dmax, "cells": cells_json(cs)}));
-  regs.set(k, Some(bm));
+  // the operand is built with the crate's own builder (push + to_bmoc): `built` = 1 iff it did not panic and the entries decode
+  // (harness decoder) to exactly the cells pushed, in order. An operand that is not what was pushed is not kept: the events of
+  // the block that need it are skipped (the rejected `new` event has been emitted).
+  let bm = guarded(|| build(dmax, cs));
+  let built = bm.as_ref().map_or(false, |b| b.get_depth_max() == dmax && { let got = cells_of(b); got.len() == cs.len() && got.iter().zip(cs.iter()).all(|(x, y)| x.b == y.b && x.p == y.p && x.f == y.f) });
+  out.emit(json!({"ev": "new", "out": k, "dmax": dmax, "cells": cells_json(cs), "built": built as u8}));
+  regs.set(k, if built { bm } else { None });
 }
 fn result_event(ev: Value, res: &Option<BMOC>) -> Value {
   let mut ev = ev;
@@ -232,6 +236,7 @@ fn result_event(ev: Value, res: &Option<BMOC>) -> Value {
 }
 /// the cells of register `a` pushed in a shuffled order into a BMOCBuilderUnsafe, then `to_bmoc_from_unordered`
 pub fn ev_unordered(rng: &mut Rng, regs: &mut Regs, out: &mut Out, a: usize, o: usize) {
+  if regs.r[a].is_none() { return; } // an operand was lost (a rejected event earlier in the block): nothing to run
   let (dmax, mut cs) = { let ra = regs.r[a].as_ref().unwrap(); (ra.get_depth_max(), cells_of(ra)) };
   if cs.len() > 400 { return; }
   for k in (1..cs.len()).rev() { let j = rng.below(k as u64 + 1) as usize; cs.swap(k, j); }
@@ -244,6 +249,7 @@ pub fn ev_unordered(rng: &mut Rng, regs: &mut Regs, out: &mut Out, a: usize, o: 
   regs.set(o, res);
 }
 pub fn ev_op(regs: &mut Regs, out: &mut Out, op: &str, a: usize, b: usize, o: usize) {
+  if regs.r[a].is_none() || regs.r[b].is_none() { return; } // an operand was lost (a rejected event earlier in the block): nothing to run
   let res = {
     let (ra, rb) = (regs.r[a].as_ref().unwrap(), regs.r[b].as_ref().unwrap());
     guarded(|| match op { "not" => ra.not(), "and" => ra.and(rb), "or" => ra.or(rb), "xor" => ra.xor(rb), _ => unreachable!() })
@@ -256,6 +262,7 @@ pub fn ev_op(regs: &mut Regs, out: &mut Out, op: &str, a: usize, b: usize, o: us
   regs.set(o, res);
 }
 pub fn ev_law(regs: &Regs, out: &mut Out, name: &str, a: usize, b: usize) {
+  if regs.r[a].is_none() || regs.r[b].is_none() { return; } // an operand was lost (a rejected event earlier in the block): nothing to run
   let (ra, rb) = (regs.r[a].as_ref().unwrap(), regs.r[b].as_ref().unwrap());
   // every intermediate result is checked before it is used as an operand (see Regs::set); a malformed one falsifies the law
   let wf = |x: BMOC| -> Option<BMOC> { Some(x).filter(well_formed) };
@@ -269,6 +276,7 @@ pub fn ev_law(regs: &Regs, out: &mut Out, name: &str, a: usize, b: usize) {
   out.emit(json!({"ev": "law", "law": name, "a": a, "b": if name == "demorgan" { b } else { a }, "p": holds.is_none() as u8, "holds": holds.flatten().unwrap_or(false) as u8}));
 }
 pub fn ev_view(regs: &Regs, out: &mut Out, k: usize) {
+  if regs.r[k].is_none() { return; } // an operand was lost (a rejected event earlier in the block): nothing to run
   let bm = regs.r[k].as_ref().unwrap();
   let dmax = bm.get_depth_max();
   let iter: Vec<C> = bm.into_iter().map(|c| { let (b, p) = path_of_hash(c.depth.min(29), c.hash); C { b: b.min(255) as u8, p, f: c.is_full } }).collect();
@@ -288,6 +296,7 @@ pub fn ev_view(regs: &Regs, out: &mut Out, k: usize) {
                   "ranges": ranges, "small": small as u8, "flat": flat, "flatarr": flatarr, "flatcell": flatcell}));
 }
 pub fn ev_pack(regs: &mut Regs, out: &mut Out, a: usize, o: usize) {
+  if regs.r[a].is_none() { return; } // an operand was lost (a rejected event earlier in the block): nothing to run
   let src = cells_of(regs.r[a].as_ref().unwrap());
   let dmax = regs.r[a].as_ref().unwrap().get_depth_max();
   let res = guarded(|| { let mut b = BMOCBuilderUnsafe::new(dmax, src.len().max(1)); for c in &src { b.push(c.depth(), c.hash(), c.f); } b.to_bmoc_packing() });
@@ -295,6 +304,7 @@ pub fn ev_pack(regs: &mut Regs, out: &mut Out, a: usize, o: usize) {
   regs.set(o, res);
 }
 pub fn ev_lower(regs: &mut Regs, out: &mut Out, a: usize, o: usize, to: u8, packing: bool) {
+  if regs.r[a].is_none() { return; } // an operand was lost (a rejected event earlier in the block): nothing to run
   let src = cells_of(regs.r[a].as_ref().unwrap());
   let dmax = regs.r[a].as_ref().unwrap().get_depth_max();
   let res = guarded(|| {
